@@ -282,6 +282,30 @@ def raw_sample_vars(prog, f):
                         src = show(bdef) if bdef is not None else base["n"]
                         if "getSortArray" in src or base["n"] in ("rindex",):
                             out.append((l["d"], l["n"], db, loop))
+    # computed ranks: v = X->indiceToRank(..) / X->coordinateToRank(..) designates an arbitrary node of grid X
+    for n in f.walk():
+        tgt = rhs = None
+        if n["k"] == "VarDecl" and n.get("c"):
+            tgt, rhs = (n["d"], n["n"]), n["c"][0]
+        elif n["k"] == "Assign" and n.get("op") == "=" and n["c"][0] is not None and n["c"][0]["k"] == "DeclRefExpr":
+            tgt, rhs = (n["c"][0]["d"], n["c"][0]["n"]), n["c"][1]
+        if rhs is not None and rhs["k"] == "MCall" and (rhs.get("callee") or "").split("::")[-1] in ("indiceToRank", "coordinateToRank") \
+                and (rhs.get("cls") or "").startswith("Db"):
+            o = call_obj(rhs)
+            db = "this" if (o is None or o["k"] == "This") else show(o)
+            # region: the innermost enclosing loop body (or the whole function)
+            region = None
+            for a in f.ancestors(n):
+                if a["k"] in ("For", "While", "Do", "ForRange"):
+                    region = a
+                    break
+            fake = region if region is not None else {"c": [None, None, None, f.body], "l": n.get("l", f.line), "k": "Fn"}
+            if fake["k"] != "For":
+                fake = {"c": [None, None, None, fake["c"][-1] if fake["k"] in ("While", "ForRange") else (fake["c"][0] if fake["k"] == "Do" else f.body)],
+                        "l": fake.get("l", f.line), "k": "Region"}
+            fake = dict(fake)
+            fake["computed"] = True
+            out.append((tgt[0], tgt[1], db, fake))
     return out
 
 
